@@ -4,6 +4,7 @@
   of `get_mds`: `#group` value + `seq ` + PCM block + the data-bank items the song uses.
 -/
 import Ctrmml.Proofs.MdsFile
+import Ctrmml.Spec.MdsFrag
 namespace Ctrmml.MdsFile
 open Ctrmml Ctrmml.Mds Tables
 
@@ -19,19 +20,6 @@ theorem layout_length_le : ∀ (cs : List Riff.Tree) (n : Nat), (Riff.layout n c
     rw [Riff.layout]
     simp only [List.length_append, be32_length, le32_length, sumBody]
     split <;> simp <;> omega
-
-/-- bytes of the `dblk` entries of the used data items: id 4 + item, plus header and pad -/
-def usedBytes (bank : List (List Nat)) : List (Nat × Nat) → Nat
-  | [] => 0
-  | p :: rest => 13 + ((bank[p.1 % (mdsFile_bankMask + 1)]?).getD []).length + usedBytes bank rest
-
-/-- the decidable size bound: everything `get_mds` copies into the file, with 64 bytes of slack
-for the fixed chunk headers -/
-def sizeBound (b : Built) (bank : List (List Nat)) (group pcm : Bytes) : Nat :=
-  group.length + b.seq.length + pcm.length + usedBytes bank (usedSorted b.conv)
-
-def exportSmall (b : Built) (bank : List (List Nat)) (group pcm : Bytes) : Bool :=
-  decide (sizeBound b bank group pcm + 64 ≤ 4294967296)
 
 theorem entryTrees_sum (nS nM : Nat) (bank : List (List Nat)) :
     ∀ (l : List (Nat × Nat)) (ts : List Riff.Tree), entryTrees nS nM bank l = some ts →
